@@ -571,16 +571,13 @@ where
     type Item = &'item T;
 
     fn next(&mut self) -> Option<Self::Item> {
-        if let item @ Some(_) = self.current_section.next() {
-            return item;
-        }
+        loop {
+            if let item @ Some(_) = self.current_section.next() {
+                return item;
+            }
 
-        if let Some(next_section) = self.subsequent_sections.next() {
-            self.current_section = next_section.iter();
-            return self.next();
+            self.current_section = self.subsequent_sections.next()?.iter();
         }
-
-        None
     }
 
     fn size_hint(&self) -> (usize, Option<usize>) {
